@@ -20,7 +20,12 @@ type vsrv12Script struct {
 	Suite       uint16 // 0 = upstream's choice among mutually supported suites
 	Compression uint8
 	ALPN        *string
+	// Resume: when the hello carries a ticket the server can open, really resume that session (abbreviated handshake,
+	// upstream's own steps) while announcing Compression / ALPN as scripted: a cooperative adversary for the checks
+	// that only run on a full handshake
+	Resume bool
 	// results
+	Resumed   bool
 	Completed bool
 	CH        *clientHelloMsg
 	SentSuite uint16
@@ -76,6 +81,40 @@ func vsrvRun12(ctx context.Context, c *Conn, s *vsrv12Script) error {
 		c.clientProtocol = *s.ALPN
 	}
 	c.buffering = true
+	if s.Resume {
+		if err := hs.checkForResumption(); err != nil {
+			return err
+		}
+		if hs.sessionState != nil {
+			s.Resumed = true
+			c.didResume = true
+			hs.hello.compressionMethod = s.Compression
+			if err := hs.doResumeHandshake(); err != nil {
+				return err
+			}
+			s.SentSuite = hs.suite.id
+			if err := hs.establishKeys(); err != nil {
+				return err
+			}
+			if err := hs.sendSessionTicket(); err != nil {
+				return err
+			}
+			if err := hs.sendFinished(c.serverFinished[:]); err != nil {
+				return err
+			}
+			if _, err := c.flush(); err != nil {
+				return err
+			}
+			c.clientFinishedIsFirst = false
+			if err := hs.readFinished(nil); err != nil {
+				return err
+			}
+			c.ekm = ekmFromMasterSecret(c.vers, hs.suite, hs.masterSecret, hs.clientHello.random, hs.hello.random)
+			c.isHandshakeComplete.Store(true)
+			s.Completed = true
+			return nil
+		}
+	}
 	if s.Suite != 0 {
 		hs.suite = vsrv12SuiteByID(s.Suite)
 		if hs.suite == nil {
